@@ -17,8 +17,8 @@
                        of [write_all] / [flush] calls on the layer below joined by `?`;
      * [bw_*]          noodles-bgzf/src/io/writer.rs over such a sink (staging counter, flush =
                        one frame = 14 [write_all] calls as in writer/frame.rs, try_finish =
-                       flush + EOF block, finish(self), Drop = try_finish with the result
-                       ignored); DEFLATE is not modelled: the i-th emitted frame is an opaque
+                       flush + EOF block unless the stream is already finished, finish(self),
+                       Drop = try_finish with the result ignored); DEFLATE is not modelled: the i-th emitted frame is an opaque
                        byte list handed in from outside.
    Error kinds are numbered; only two codes matter to the logic. *)
 From Coq Require Import List NArith Arith Bool.
@@ -164,10 +164,11 @@ Definition frame_pieces (f : list byte) : list (list byte) :=
 Record bw := mkBw {
   staged : nat;     (* staging_buf.len() *)
   nfl : nat;        (* number of frames emitted successfully so far *)
-  alive : bool      (* inner.is_some() *)
+  alive : bool;     (* inner.is_some() *)
+  fin : bool        (* is_finished: an EOF block terminates what has been written *)
 }.
 
-Definition bw_init : bw := mkBw 0 0 true.
+Definition bw_init : bw := mkBw 0 0 true false.
 
 Section Bgzf.
   Variable maxbuf : nat.                 (* MAX_BUF_SIZE = 65495 *)
@@ -178,12 +179,13 @@ Section Bgzf.
   Definition emit_frame (f : list byte) (s : sink) : res * sink :=
     run_calls (map CWrite (frame_pieces f)) s.
 
-  (* flush_block: deflate (cannot fail here), write_frame, then position += .., staging.clear() *)
+  (* flush_block: deflate (cannot fail here), is_finished = false, write_frame, then
+     position += .., staging.clear() *)
   Definition bw_flush_block : scomp bw := fun st s =>
     let (r, s1) := emit_frame (frame_at (nfl st)) s in
     match r with
-    | Ok => (Ok, mkBw 0 (S (nfl st)) (alive st), s1)
-    | _ => (r, st, s1)
+    | Ok => (Ok, mkBw 0 (S (nfl st)) (alive st) false, s1)
+    | _ => (r, mkBw (staged st) (nfl st) (alive st) false, s1)
     end.
 
   (* <Writer as Write>::flush — never calls the inner flush *)
@@ -193,7 +195,7 @@ Section Bgzf.
   (* <Writer as Write>::write *)
   Definition bw_write (n : nat) (st : bw) (s : sink) : wres * bw * sink :=
     let amt := Nat.min (maxbuf - staged st) n in
-    let st1 := mkBw (staged st + amt) (nfl st) (alive st) in
+    let st1 := mkBw (staged st + amt) (nfl st) (alive st) (fin st) in
     if Nat.ltb (staged st1) maxbuf then (WOk amt, st1, s)
     else
       let '(r, st2, s2) := bw_flush st1 s in
@@ -224,11 +226,16 @@ Section Bgzf.
 
   Definition bw_write_all (n : nat) : scomp bw := fun st s => bw_write_all_fuel (S n) n st s.
 
-  (* try_finish: self.flush()?; inner.write_all(&BGZF_EOF) *)
+  (* try_finish: self.flush()?; if self.is_finished { return Ok(()) };
+     result = inner.write_all(&BGZF_EOF); self.is_finished = result.is_ok(); result *)
   Definition bw_try_finish : scomp bw := fun st s =>
     let '(r, st1, s1) := bw_flush st s in
     match r with
-    | Ok => let (r2, s2) := write_all BGZF_EOF s1 in (r2, st1, s2)
+    | Ok =>
+        if fin st1 then (Ok, st1, s1)
+        else
+          let (r2, s2) := write_all BGZF_EOF s1 in
+          (r2, mkBw (staged st1) (nfl st1) (alive st1) (match r2 with Ok => true | _ => false end), s2)
     | _ => (r, st1, s1)
     end.
 
@@ -236,7 +243,7 @@ Section Bgzf.
   Definition bw_finish : scomp bw := fun st s =>
     let '(r, st1, s1) := bw_try_finish st s in
     match r with
-    | Ok => (Ok, mkBw (staged st1) (nfl st1) false, s1)
+    | Ok => (Ok, mkBw (staged st1) (nfl st1) false (fin st1), s1)
     | _ => (r, st1, s1)
     end.
 
